@@ -150,6 +150,17 @@ def ev(e, env):
         return res
     if isinstance(e, ast.IfExp):
         return ev(e.body, env) if ev(e.test, env) else ev(e.orelse, env)
+    if isinstance(e, ast.Subscript) and isinstance(e.slice, ast.Constant) \
+            and isinstance(e.slice.value, int):
+        v = ev(e.value, env)
+        if isinstance(v, list) and -len(v) <= e.slice.value < len(v):
+            return v[e.slice.value]
+        raise Unknown(k)
+    if isinstance(e, ast.Attribute) and e.attr == "shape":
+        v = ev(e.value, env)
+        if isinstance(v, list):
+            return [len(v)]
+        raise Unknown(k)
     if isinstance(e, (ast.List, ast.Tuple)):
         return [ev(x, env) for x in e.elts]
     if isinstance(e, (ast.ListComp, ast.GeneratorExp)) and \
@@ -182,6 +193,19 @@ def ev(e, env):
             return _u(UNARY[short], args[0])
         if short in ("maximum", "minimum") and len(args) == 2:
             return _ew(max if short == "maximum" else min, *args)
+        if short in ("where", "nonzero") and len(args) == 1 and \
+                isinstance(args[0], list):
+            return [[i for i, v in enumerate(args[0]) if v]]
+        if short in ("nanargmax", "nanargmin", "argmax", "argmin") and \
+                len(args) == 1 and isinstance(args[0], list):
+            vals = [(v, i) for i, v in enumerate(args[0]) if v == v]
+            if not vals:
+                raise Unknown("all-nan " + short)
+            pick = max if "max" in short else min
+            best = pick(v for v, _ in vals)
+            return min(i for v, i in vals if v == best)
+        if short == "unravel_index" and len(args) == 2:
+            return [args[0] if isinstance(args[0], list) else [args[0]]]
         raise Unknown(fn)
     raise Unknown(k)
 
